@@ -39,6 +39,8 @@ type FuncContract struct {
 	Props          []string
 	Requires       []Clause
 	Ensures        []Clause
+	EnsuresAlways  []Clause // also on the panic edges (after the armed defers have run)
+	NoInline       bool     // uncontracted module callees are havocked (inferred write set), never inlined
 	Assigns        []Clause
 	HasAssigns     bool
 	Pure           bool
@@ -98,6 +100,7 @@ type AxiomDef struct {
 }
 
 type Contracts struct {
+	Finals []*FinalDef
 	Funcs  map[string]*FuncContract
 	Specs  map[string]*SpecDef // key: pkgpath + "::" + name
 	Axioms []*AxiomDef
@@ -107,6 +110,16 @@ type Contracts struct {
 	Notes       []string
 }
 
+// FinalDef declares a struct field that is never written once its object has been built (checked
+// syntactically over the SSA of the whole module); such a field survives every havoc.
+type FinalDef struct {
+	Field string
+	Key   string
+	Props []string
+	File  string
+	Line  int
+}
+
 func NewContracts() *Contracts {
 	return &Contracts{Funcs: map[string]*FuncContract{}, Specs: map[string]*SpecDef{}}
 }
@@ -114,7 +127,7 @@ func NewContracts() *Contracts {
 var clauseKeywords = map[string]bool{
 	"props": true, "requires": true, "ensures": true, "assigns": true, "pure": true, "trusted": true,
 	"assumed": true, "terminates": true, "loop": true, "measure": true, "maypanic": true, "note": true,
-	"let": true, "model": true, "recursion_assumed": true, "assume_nopanic": true, "defines": true, "at_call": true, "retains": true, "allow_alias": true, "writes": true,
+	"ensures_always": true, "noinline": true, "let": true, "model": true, "recursion_assumed": true, "assume_nopanic": true, "defines": true, "at_call": true, "retains": true, "allow_alias": true, "writes": true,
 }
 
 // normaliseFuncKey turns "(*Cursor).Pos" into "(*pkgpath.Cursor).Pos" and "Name" into "pkgpath.Name".
@@ -321,6 +334,18 @@ func (cs *Contracts) LoadFile(path, pkgPath string) error {
 				sd.Body = e
 			}
 			cs.Specs[pkgPath+"::"+name] = sd
+		case "final":
+			// "final pkg.Type.field [props Cxx ...]": the field is only written while its object is being built
+			cur, curAx = nil, nil
+			fs := strings.Fields(rest)
+			if len(fs) == 0 {
+				return fail(fmt.Errorf("final pkg.Type.field [props ...]"))
+			}
+			fd := &FinalDef{Field: fs[0], Key: "f:" + fs[0], File: path, Line: l.n}
+			if len(fs) > 2 && fs[1] == "props" {
+				fd.Props = fs[2:]
+			}
+			cs.Finals = append(cs.Finals, fd)
 		case "axiom", "lemma":
 			cur = nil
 			i := strings.Index(rest, "):")
@@ -389,6 +414,15 @@ func (cs *Contracts) LoadFile(path, pkgPath string) error {
 					return fail(err)
 				}
 				cur.Ensures = append(cur.Ensures, c)
+			case "noinline":
+				cur.NoInline = true
+			case "ensures_always":
+				c, err := mkClause(rest)
+				if err != nil {
+					return fail(err)
+				}
+				cur.Ensures = append(cur.Ensures, c)
+				cur.EnsuresAlways = append(cur.EnsuresAlways, c)
 			case "let":
 				i := strings.Index(rest, "=")
 				if i < 0 {
